@@ -30,37 +30,38 @@ type implQ struct {
 }
 
 type Engine struct {
-	opts        Options
-	Prog        *ssa.Program
-	Pkgs        []*packages.Package
-	SSAPkgs     []*ssa.Package
-	repoPkgs    map[*types.Package]bool
-	modPath     string
-	cfiles      []*CFile
-	funcC       map[*ssa.Function]*FuncC
-	funcCPkg    map[*FuncC]*types.Package
-	externs     map[string]*FuncC
-	externPkg   map[*FuncC]*types.Package
-	specs       map[string]*specInfo // pkgpath.name
-	lemmas      []*lemmaInfo
-	axioms      []*axiomInfo
-	nopanic     map[*ssa.Function][]string // function -> property tags
-	tags        map[string]int
-	tagTypes    []types.Type
-	funcIDs     map[string]int
-	implQueries map[string]implQ
-	inlineOK    map[*ssa.Function]bool
-	closureFn   map[string]*ssa.Function
-	typeCache   map[string]types.Type
-	mutGlobals  map[string]bool
-	pureCache   map[*ssa.Function]bool
-	typeInvs    []*typeInvInfo
-	sumCache    map[*ssa.Function]*modSummary
-	unproved    map[string]bool // obligations explicitly left unproved at enrolment (nil checks)
-	sumFrame    *frame
-	AllRepoPkgs []*packages.Package
-	byName      map[string]*types.Package
-	Errors      []string
+	opts          Options
+	Prog          *ssa.Program
+	Pkgs          []*packages.Package
+	SSAPkgs       []*ssa.Package
+	repoPkgs      map[*types.Package]bool
+	modPath       string
+	cfiles        []*CFile
+	funcC         map[*ssa.Function]*FuncC
+	funcCPkg      map[*FuncC]*types.Package
+	externs       map[string]*FuncC
+	externPkg     map[*FuncC]*types.Package
+	specs         map[string]*specInfo // pkgpath.name
+	lemmas        []*lemmaInfo
+	axioms        []*axiomInfo
+	nopanic       map[*ssa.Function][]string // function -> property tags
+	tags          map[string]int
+	tagTypes      []types.Type
+	funcIDs       map[string]int
+	implQueries   map[string]implQ
+	inlineOK      map[*ssa.Function]bool
+	closureFn     map[string]*ssa.Function
+	typeCache     map[string]types.Type
+	mutGlobals    map[string]bool
+	pureCache     map[*ssa.Function]bool
+	typeInvs      []*typeInvInfo
+	sumCache      map[*ssa.Function]*modSummary
+	unproved      map[string]bool
+	globalDynType map[string]types.Type // dynamic type of interface globals set once in init // obligations explicitly left unproved at enrolment (nil checks)
+	sumFrame      *frame
+	AllRepoPkgs   []*packages.Package
+	byName        map[string]*types.Package
+	Errors        []string
 }
 
 type typeInvInfo struct {
@@ -83,7 +84,7 @@ func NewEngine(opts Options, patterns []string) (*Engine, error) {
 	e := &Engine{opts: opts, repoPkgs: map[*types.Package]bool{}, funcC: map[*ssa.Function]*FuncC{}, funcCPkg: map[*FuncC]*types.Package{},
 		externs: map[string]*FuncC{}, externPkg: map[*FuncC]*types.Package{}, specs: map[string]*specInfo{}, nopanic: map[*ssa.Function][]string{},
 		tags: map[string]int{}, funcIDs: map[string]int{}, implQueries: map[string]implQ{}, inlineOK: map[*ssa.Function]bool{},
-		closureFn: map[string]*ssa.Function{}, typeCache: map[string]types.Type{}, mutGlobals: map[string]bool{}, pureCache: map[*ssa.Function]bool{}, sumCache: map[*ssa.Function]*modSummary{}, unproved: map[string]bool{}, byName: map[string]*types.Package{}}
+		closureFn: map[string]*ssa.Function{}, typeCache: map[string]types.Type{}, mutGlobals: map[string]bool{}, pureCache: map[*ssa.Function]bool{}, sumCache: map[*ssa.Function]*modSummary{}, unproved: map[string]bool{}, globalDynType: map[string]types.Type{}, byName: map[string]*types.Package{}}
 	cfg := &packages.Config{Mode: packages.LoadAllSyntax | packages.NeedModule, Dir: opts.RepoDir, BuildFlags: []string{"-tags=verif"},
 		Env: append(os.Environ(), "GOFLAGS=-mod=mod", "GOPROXY=off", "GOSUMDB=off", "GOTOOLCHAIN=local")}
 	pkgs, err := packages.Load(cfg, patterns...)
@@ -180,6 +181,37 @@ func (e *Engine) mutableGlobal(comp string) bool { return e.mutGlobals[comp] }
 func (e *Engine) scanGlobalStores() {
 	for fn := range ssautil.AllFunctions(e.Prog) {
 		if fn.Name() == "init" || strings.HasPrefix(fn.Name(), "init#") {
+			// interface globals initialised from a concrete value: remember its type
+			for _, b := range fn.Blocks {
+				for _, in := range b.Instrs {
+					if s, ok := in.(*ssa.Store); ok {
+						if g, ok := s.Addr.(*ssa.Global); ok {
+							if _, isI := g.Type().(*types.Pointer).Elem().Underlying().(*types.Interface); isI {
+								key := compGlobal(g)
+								var dyn types.Type
+								switch v := s.Val.(type) {
+								case *ssa.MakeInterface:
+									dyn = v.X.Type()
+								case *ssa.Call:
+									if callee := v.Call.StaticCallee(); callee != nil && callee.String() == "errors.New" {
+										if ep := e.Prog.ImportedPackage("errors"); ep != nil {
+											if tn, ok := ep.Pkg.Scope().Lookup("errorString").(*types.TypeName); ok {
+												dyn = types.NewPointer(tn.Type())
+											}
+										}
+									}
+								}
+								if _, dup := e.globalDynType[key]; dup {
+									delete(e.globalDynType, key)
+									e.mutGlobals[key] = true
+								} else if dyn != nil {
+									e.globalDynType[key] = dyn
+								}
+							}
+						}
+					}
+				}
+			}
 			continue
 		}
 		for _, b := range fn.Blocks {
@@ -753,7 +785,10 @@ func (e *Engine) finishVC(vc *VC, f *frame) {
 		if !vc.declSeen[n] {
 			continue
 		}
-		vc.assert(fmt.Sprintf("(and (> (i_tag %s) 0) (= (i_box %s) %d))", n, n, 900000+i))
+		vc.assert(fmt.Sprintf("(and (> (i_tag %s) 0) (= (i_box %s) (- %d)))", n, n, 900000+i))
+		if t := e.globalDynType[c]; t != nil {
+			vc.assert(fmt.Sprintf("(= (i_tag %s) %d)", n, e.tagOf(t)))
+		}
 		vc.note("assumed: package-level error variables are non-nil, pairwise distinct and never reassigned")
 	}
 }
